@@ -3837,7 +3837,7 @@ func send(n *node) {
 	next := getExec(n.tnext)
 	c0, c1 := n.child[0], n.child[1]
 	value0 := genValue(c0) // Send channel.
-	value1 := genDestValue(c0.typ.val, c1)
+	value1 := genDestValue(chanElement(c0.typ), c1)
 
 	if !n.interp.cancelChan {
 		// Send is non-cancellable, has the least overhead.
